@@ -331,6 +331,125 @@ def nonempty(ctx, rule="C11.nonempty"):
     ctx.floor(rule, 2)
 
 
+def _flag_paths(stmts, state, events, on_call, on_test):
+    """structured path enumeration of a statement list with constant propagation of boolean flag variables: yields
+    (state, events, fell_through) for every path; inner loops are taken zero times and once; `on_test(test, state)` may decide a
+    branch (True / False) or leave it open (None); `on_call(call)` says whether a call is an event"""
+    if not stmts:
+        yield state, events, True
+        return
+    st, rest = stmts[0], stmts[1:]
+
+    def cont(outs):
+        for s2, e2, fell in outs:
+            if fell:
+                yield from _flag_paths(rest, s2, e2, on_call, on_test)
+            else:
+                yield s2, e2, False
+
+    if isinstance(st, (ast.Continue, ast.Break, ast.Return, ast.Raise)):
+        ev = events + [c for c in ast.walk(st) if isinstance(c, ast.Call) and on_call(c)]
+        yield state, ev, False
+    elif isinstance(st, ast.If):
+        ev = events + [c for c in ast.walk(st.test) if isinstance(c, ast.Call) and on_call(c)]
+        v = on_test(st.test, state)
+        outs = []
+        if v is not False:
+            outs += list(_flag_paths(st.body, dict(state, **{"@taken": state.get("@taken", ()) + ((st.test, True),)}), ev, on_call, on_test))
+        if v is not True:
+            outs += list(_flag_paths(st.orelse, dict(state, **{"@taken": state.get("@taken", ()) + ((st.test, False),)}), ev, on_call, on_test))
+        yield from cont(outs)
+    elif isinstance(st, (ast.For, ast.While)):
+        outs = [(state, events, True)]
+        for s2, e2, fell in _flag_paths(st.body, state, events, on_call, on_test):
+            outs.append((s2, e2, True))       # continue / break / fall-through all leave the inner loop
+        yield from cont(outs)
+    elif isinstance(st, (ast.With, ast.Try)):
+        yield from cont(list(_flag_paths(st.body, state, events, on_call, on_test)))
+    else:
+        s2 = state
+        if isinstance(st, ast.Assign) and len(st.targets) == 1 and isinstance(st.targets[0], ast.Name):
+            if isinstance(st.value, ast.Constant) and isinstance(st.value.value, bool):
+                s2 = dict(state, **{st.targets[0].id: st.value.value})
+            elif st.targets[0].id in state:
+                s2 = {k: v for k, v in state.items() if k != st.targets[0].id}
+        ev = events + [c for c in ast.walk(st) if isinstance(c, ast.Call) and on_call(c)]
+        yield from cont([(s2, ev, True)])
+
+
+def rewire(ctx, rule="C11.rewire"):
+    ctx.explain(f"{rule}: gaussian_merge replaces a set of DAG nodes by the merged transform; every loop that re-attaches the "
+                "successors of a replaced node must, on EVERY path through its body on which the successor is not classified as "
+                "Gaussian (those are merged or re-attached elsewhere), add an edge into that successor - a successor left without "
+                "an incoming edge floats to the front of the topological order, i.e. a non-Gaussian gate moves in front of "
+                "the Gaussian block it followed. Paths are enumerated with constant propagation of boolean flags "
+                "(`placed = False ... placed = True ... if not placed:`), inner loops taken zero times and once.")
+    n = 0
+    for f in ctx.tree.module(GM).functions.values():
+        k = 0
+        for loop in walk_no_nested(f.node):
+            if not isinstance(loop, ast.For) or not isinstance(loop.target, ast.Name):
+                continue
+            it = expand_locals(f.node, loop.iter)
+            src = ast.unparse(it)
+            over_succ = (isinstance(it, ast.Name) and it.id == "successors") or ".successors(" in src
+            if not over_succ:
+                continue
+            var = loop.target.id
+
+            def names_var(a):
+                a = resolve_local(f.node, a) if isinstance(a, ast.Name) and a.id != var else a
+                return isinstance(a, ast.Name) and a.id == var
+
+            def on_call(c):
+                return isinstance(c.func, ast.Attribute) and c.func.attr == "add_edge" and len(c.args) >= 2 and names_var(c.args[1])
+
+            if not any(isinstance(c, ast.Call) and on_call(c) for c in ast.walk(loop)):
+                continue
+
+            def on_test(t, state):
+                neg = False
+                while isinstance(t, ast.UnaryOp) and isinstance(t.op, ast.Not):
+                    t, neg = t.operand, not neg
+                if isinstance(t, ast.Name) and t.id in state:
+                    return state[t.id] != neg
+                return None
+
+            def gaussian_side(test, taken):
+                """the branch taken says the successor IS a Gaussian operation"""
+                t = expand_locals(f.node, test)
+                neg = False
+                while isinstance(t, ast.UnaryOp) and isinstance(t.op, ast.Not):
+                    t, neg = t.operand, not neg
+                if isinstance(t, ast.Compare) and len(t.ops) == 1 and isinstance(t.ops[0], (ast.In, ast.NotIn)) and \
+                        (dotted(t.comparators[0]) or "").endswith("gaussian_ops") and \
+                        any(isinstance(x, ast.Name) and x.id == var for x in ast.walk(t.left)):
+                    is_in = isinstance(t.ops[0], ast.In) != neg
+                    return is_in == taken
+                return False
+
+            n += 1
+            k += 1
+            bad = None
+            npaths = 0
+            for state, events, _fell in _flag_paths(loop.body, {}, [], on_call, on_test):
+                npaths += 1
+                if any(gaussian_side(t, tk) for t, tk in state.get("@taken", ())):
+                    continue
+                if not events:
+                    bad = state.get("@taken", ())
+                    break
+            ok = bad is None
+            why = ""
+            if not ok:
+                why = " and ".join(("" if tk else "not ") + "(" + ast.unparse(t)[:50] + ")" for t, tk in bad) or "always"
+            ctx.ob(rule, f.site, ok, "" if ok else f"loop over `{src[:40]}`: on the path [{why}] the successor `{var}` of a replaced "
+                   "node gets no incoming edge from the merged block - it is no longer ordered after the gates it followed",
+                   role=f"reattach:{k}", line=loop.lineno, detail={"paths": npaths})
+    ctx.require(n >= 2, f"only {n} successor re-attachment loops found in gaussian_merge.py")
+    ctx.floor(rule, 2)
+
+
 def rules(ctx):
     from . import c04
     c04.register_index(ctx, "C11.register-index")
@@ -340,6 +459,7 @@ def rules(ctx):
     dispatch(ctx)
     unfiltered(ctx)
     nonempty(ctx)
+    rewire(ctx)
     from . import common_backend as _B
     _B.polar_pair(ctx, "C11.polar", ("compilers/gaussian_unitary.py", "compilers/gaussian_merge.py"))
     ctx.floor("C11.polar", 1)
